@@ -448,15 +448,23 @@ def rebuild_precondition(facts):
                 ok = False
                 seen = []
                 # every comparison known to hold at the call (nested ifs, guard clauses, else branches alike)
+                from astu import single_assignment_locals
+                sa = single_assignment_locals(fn)
+                unknown = False
                 for c in reach(fn["body"], n):
                     g = gt_pair(c)
                     if g:
                         seen.append(txt(c))
-                        big, small = txt(g[0]), txt(g[1])
-                        if big == "num_entries_" and g[2] and ("lg_nom_size_" in small or "get_capacity(" in small):
-                            ok = True
+                        big, small = txt(g[0]), txt(g[1], sa).replace(" ", "")
+                        if big == "num_entries_" and g[2]:
+                            if small.startswith("get_capacity(lg_cur_size_,lg_nom_size_") or small in ("(1<<lg_nom_size_)", "nominal_size"):
+                                ok = True
+                            else:
+                                unknown = True   # a strict bound the rule cannot relate to the nominal size
                 if ok:
                     out.append(ob("theta.rebuild-pre", key, n["loc"], "discharged", "rebuild() only when %s" % seen[0], fn["qname"]))
+                elif unknown:
+                    out.append(ob("theta.rebuild-pre", key, n["loc"], "unrecognised", "rebuild() is reached under %s: num_entries_ is strictly above a bound this rule cannot relate to the nominal size (expected get_capacity(lg_cur_size_, lg_nom_size_) or 1 << lg_nom_size_): re-review" % seen, fn["qname"]))
                 else:
                     out.append(ob("theta.rebuild-pre", key, n["loc"], "violated", "rebuild() is reached under %s, which does not imply num_entries_ > nominal size: with exactly nominal-size entries the pivot index lies one past the consolidated entries, theta is read from an empty slot (theta becomes 0 / garbage)" % (seen or "no guard"), fn["qname"]))
         walkp(fn["body"], visit)
